@@ -670,6 +670,88 @@ def wait_processed(cli, rng, vocab, net, b):
     return "silent"
 
 
+EXC_CANARY_LOG = []
+
+
+class AuditedError(Exception):
+    """an application's exception class whose attributes have effects (a property setter, an instrumented __setattr__): a victim
+    that is not configured to re-create custom exceptions must never run any of this for a peer"""
+
+    @property
+    def target(self):
+        return self.__dict__.get("_target")
+
+    @target.setter
+    def target(self, value):
+        EXC_CANARY_LOG.append(("setter", repr(value)[:40]))
+        self.__dict__["_target"] = value
+
+    def __setattr__(self, name, value):
+        EXC_CANARY_LOG.append(("setattr", name))
+        Exception.__setattr__(self, name, value)
+
+
+def forged_exception_records(ctx, rng):
+    """crafted exception records on a connection with the DEFAULT configuration, in a process where another connection - one whose
+    owner chose to trust its peer (instantiate_custom_exceptions) - has just legitimately received the very class they name: what
+    the trusting connection was allowed to re-create gives this one no permission. Oracle: the canary class's setter / __setattr__
+    log stays empty and what surfaces is not an instance of the class."""
+    import rpyc
+    from rpyc.core.async_ import AsyncResult
+    modname = AuditedError.__module__
+    if sys.modules.get(modname) is None or getattr(sys.modules[modname], "AuditedError", None) is not AuditedError:
+        ctx.inconclusive("forged exception records: the canary class is not reachable under its module name %r" % modname)
+        return
+    box = {}
+
+    class Thrower(rpyc.Service):
+        def exposed_throw(self):
+            raise box["exc"]
+    for order in ("trusting-first", "default-only"):
+        if order == "trusting-first":
+            trusting = vnet.ServedPair(rpyc.VoidService(), Thrower(), cfg_a=dict(instantiate_custom_exceptions=True, import_custom_exceptions=True))
+            try:
+                box["exc"] = AuditedError("legitimate")
+                try:
+                    trusting.a.root.throw()
+                except AuditedError:
+                    ctx.count("custom_exception_received_by_a_trusting_connection")
+                except Exception:
+                    pass
+            finally:
+                box.clear()
+                trusting.close()
+        del EXC_CANARY_LOG[:]
+        pair = vnet.ServedPair(rpyc.VoidService(), rpyc.VoidService())
+        try:
+            for attrs in ((("target", "/etc/shadow"),), (("target", 1), ("note", "x")), ()):
+                payload = ((modname, "AuditedError"), ("forged",), attrs, "traceback text")
+                a = pair.a
+                seq = a._get_seq_id()
+                res = AsyncResult(a)
+                a._request_callbacks[seq] = res
+                pair.net.b.write(rc.msg(rc.MSG_EXCEPTION, seq, payload))
+                built = None
+                try:
+                    res.set_expiry(5)
+                    res.wait()
+                    built = res._obj if res._is_exc else None
+                except BaseException as e:
+                    built = e
+                ctx.count("forged_exception_records")
+                ctx.case(("forged-exception-record", order, len(attrs)), nontrivial=True)
+                wit = dict(family="forged-exception-record", order=order, payload=repr(payload)[:200])
+                if EXC_CANARY_LOG:
+                    ctx.violation("C07/denied-attribute-touched/exception-record", "a crafted exception record on a connection that does not allow custom exceptions "
+                                  "ran code of the application's class %s: %r" % ("AuditedError", EXC_CANARY_LOG[:3]), wit)
+                    del EXC_CANARY_LOG[:]
+                elif isinstance(built, AuditedError):
+                    ctx.violation("C07/exception-record/real-class-without-permission", "a crafted exception record was re-created as the application's real class "
+                                  "on a connection that does not allow custom exceptions", wit)
+        finally:
+            pair.close()
+
+
 def run(ctx):
     rng = ctx.rng
     scratch = tempfile.mkdtemp(prefix="rv_c07_")
@@ -681,6 +763,8 @@ def run(ctx):
         f.write("import builtins\nbuiltins.%s.append('executed')\nclass Evil(Exception):\n    pass\n" % marker)
     vocab = dict(canary_module=modname, ctor_class=("checks.c09_exceptions", "CustomErr"), import_log=getattr(builtins, marker))
     try:
+        if ctx.shard[0] == 0:
+            forged_exception_records(ctx, rng)
         total = 0
         target = ctx.budget(12000, 1000000)
         i = 0
